@@ -61,6 +61,16 @@ def entry_points(tu):
     return out
 
 
+def state_loaders(tu):
+    """C functions installed as `__setstate__` in a method table"""
+    cached = getattr(tu, "_state_loaders", None)
+    if cached is None:
+        from .. import ctables
+        cached = set(fn for (_t, pyname), fn in ctables.py_methods(tu).items() if pyname == "__setstate__")
+        tu._state_loaders = cached
+    return cached
+
+
 def is_lifecycle(name):
     return name.endswith(LIFECYCLE_SUFFIXES)
 
@@ -366,7 +376,11 @@ class PinAnalysis(Analysis):
                 if oid is not None:
                     held, s = self.ostate(st, oid)
                     if kind == "PIN":
-                        st = sset(st, "o:" + oid, (True, "P"))
+                        # PER_PREVENT_DEACTIVATION pins an up-to-date object; it does not
+                        # load a ghost: the fields are readable only if they already were
+                        # (except in the __setstate__ slot functions: loading the state is their job)
+                        st = sset(st, "o:" + oid, (True, "P" if (s in OK_STRENGTH or self.name in state_loaders(self.tu))
+                                                   else s))
                     else:
                         if not held and s != "T" and not is_lifecycle(self.name):
                             self.report("PIN-OWNER", node, st, path(x),
